@@ -1,24 +1,37 @@
 import RsslVerif.Lemmas.MslDup
+import RsslVerif.Model.MslDupIr
 import RsslVerif.Spec.Sem
+import RsslVerif.Lemmas.GenMslRem
 /-!
-# C02 — no operand is evaluated more often in the emitted Metal than in the source
+# C02 — no operand is evaluated more often, or in another order, in the emitted Metal than in the source
 
 The Metal exporter builds a syntax tree; `ast::Expression` / `ir::Expression` are not `Copy`, so an operand can reach the
 output twice only through an explicit copy, through running a generator twice on it, or through text building.
 `Gen.MslDupSites` lists every such place of the back end on every run; `dup_sites_guarded` checks the list against the
-reviewed classification below: exactly ONE site repeats a generated operand — the struct half of the `Cast` arm,
-`(S)value ↦ S { v, v, … }` — and the side-effect test in front of it (re-extracted as a table) is *sound*: every
-constructor it accepts is strict and without effect, and it looks into EVERY expression-typed field of it.
+reviewed classification below.  Since fix batch 3 THREE copies repeat an operand of the program, in two arms:
 
-`repeatable_operand_is_pure` is the reason that is enough: for every meaning of calls, operators, `?:` and sequences
-(`Spec.MslDup.Interp`) an operand accepted by a sound test leaves the store unchanged, so writing it `n` times yields `n`
-copies of the one value and the store of one evaluation (`struct_cast_meaning_kept`, also for the "one element: anything"
-branch).  `repeatable_operand_is_pure_ir` states the same on C01's typed scalar IR (`Ir.eval`, every `World` = every
-`Prim`).  `index_blind_test_repeats_effect` is the other direction: the test of seeded mutant C02-3 (array subscript
-accepted by looking at the array only) is not sound and repeats an effect.
+* the struct half of the `Cast` arm, `(S)value ↦ S { c₁, c₂, … }`: `inner.clone()` (the generated operand, for an element of
+  the operand's type or a literal operand) and `expr.clone()` (the IR operand below `Cast(element type, …)`, generated again:
+  fix 5d2f434) — behind the side-effect test `structCastGuard`;
+* the floating-point `RemainderAssignment` arm of `generate_intrinsic_op`, `a %= b ↦ a = metal::fmod(a, b)`:
+  `exprs[0].clone()` (fix 92d66eb) — behind `is_plain_place` on the target and, because the emitted form reads the target
+  BEFORE `b` runs while `%=` reads it after, `is_free_of_writes` on `b` (fix 35faaaa).
+
+All tests are re-extracted as tables and proved *sound*: every constructor they accept is without effect of its own and
+they look into EVERY expression-typed field of it.
+
+`repeatable_operand_is_pure` / `rem_assign_operands_are_pure` are the reason that is enough: for every meaning of calls,
+assignments, increments and sequences (`Spec.MslDup.Interp`) an operand accepted by a sound test leaves the store unchanged,
+so writing it `n` times yields `n` copies of the one value and the store of one evaluation, and evaluating it before or
+after another such operand makes no difference (`struct_cast_meaning_kept`: the clauses of the braced list, converted or
+not; also for the "one element: anything" branch).  `repeatable_operand_is_pure_ir` / `rem_assign_operands_are_pure_ir` state
+the same on C01's typed scalar IR (`Ir.eval`, every `World` = every `Prim`).  `index_blind_test_repeats_effect` is the other
+direction: the test of seeded mutant C02-3 (array subscript accepted by looking at the array only) is not sound and repeats
+an effect.
 -/
 namespace RsslVerif.Thm.C02Dup
-open RsslVerif.Gen.MslDupSites RsslVerif.Model.MslDup RsslVerif.Spec.MslDup RsslVerif.Lemmas.MslDup
+open RsslVerif.Gen.MslDupSites RsslVerif.Gen.MslGenTables RsslVerif.Gen.HlslGenTables RsslVerif.Model.MslDup RsslVerif.Spec.MslDup
+open RsslVerif.Lemmas.MslDup
 
 /-- what an explicit copy in the back end copies -/
 inductive CopyClass where
@@ -47,12 +60,15 @@ def reviewed : List (CopySite × CopyClass) := [
   (⟨"msl/src/generator.rs", "build_mesh_output_type", "context.mesh_layout.clone()", 1⟩, .notExpr),
   (⟨"msl/src/generator.rs", "generate_byte_buffer_store", "packed.clone()", 1⟩, .notExpr),
   (⟨"msl/src/generator.rs", "generate_expression", "def.constexpr_value.clone()", 1⟩, .notExpr),
+  (⟨"msl/src/generator.rs", "generate_expression", "expr.clone()", 1⟩, .repeated),
   (⟨"msl/src/generator.rs", "generate_expression", "inner.clone()", 1⟩, .repeated),
   (⟨"msl/src/generator.rs", "generate_expression", "ty.layout.1.to_vec()", 1⟩, .notExpr),
   (⟨"msl/src/generator.rs", "generate_function_inner", "context.function_required_globals.get(&id).unwrap().clone()", 1⟩, .notExpr),
   (⟨"msl/src/generator.rs", "generate_function_inner", "param.clone()", 1⟩, .notExpr),
   (⟨"msl/src/generator.rs", "generate_function_inner", "ty.clone()", 1⟩, .notExpr),
   (⟨"msl/src/generator.rs", "generate_function_out_trampoline_body", "return_type.clone()", 1⟩, .notExpr),
+  (⟨"msl/src/generator.rs", "generate_intrinsic_op", "exprs.to_vec()", 1⟩, .moveOnce),
+  (⟨"msl/src/generator.rs", "generate_intrinsic_op", "exprs[0].clone()", 1⟩, .repeated),
   (⟨"msl/src/generator.rs", "generate_intrinsic_function", "exprs[0].clone()", 1⟩, .moveOnce),
   (⟨"msl/src/generator.rs", "generate_intrinsic_function", "exprs[1].clone()", 1⟩, .moveOnce),
   (⟨"msl/src/generator.rs", "generate_intrinsic_function", "exprs[2].clone()", 1⟩, .moveOnce),
@@ -93,29 +109,50 @@ def reviewed : List (CopySite × CopyClass) := [
 
 def reviewOf (s : CopySite) : Option CopyClass := (reviewed.find? (fun p => p.1 == s)).map (·.2)
 
-/-- the struct-cast site -/
+/-- the struct-cast sites: the generated operand copied, the IR operand copied below a cast to the element's type -/
 def structCastSite : CopySite := ⟨"msl/src/generator.rs", "generate_expression", "inner.clone()", 1⟩
+def structCastConvertSite : CopySite := ⟨"msl/src/generator.rs", "generate_expression", "expr.clone()", 1⟩
+/-- the target of a floating-point `%=`, copied into `a = a % b` -/
+def remAssignTargetSite : CopySite := ⟨"msl/src/generator.rs", "generate_intrinsic_op", "exprs[0].clone()", 1⟩
 
 /-- **Every place where the Metal back end can write an operand twice is guarded.**  (1) every explicit copy in the back
-end's files is reviewed; (2) the only copy that repeats a generated operand is the one of the struct cast; (3) no arm
-runs one generator call twice and `generate_expression` builds no text; (4) the struct cast writes the operand
-`get_member_count` times (arrays multiply, structs add up, anything else counts one), or refuses with a diagnostic;
-(5) the side-effect test in front of it is sound (`Spec.MslDup.Sound`: accepted constructors are strict and without
-effect and ALL their expression-typed fields are tested) and everything else is accepted only for one element.  The test
-of seeded mutant C02-3 fails (5): `ArraySubscript` has expression fields `[0, 1]`, the test recursed into `[0]`. -/
+end's files is reviewed; (2) the only copies that repeat an operand are the two of the struct cast and the target of the
+floating-point `%=`; (3) no arm runs one generator call twice and `generate_expression` builds no text; (4) the struct cast
+writes one clause per element type (`get_member_types`: an array repeats, a struct concatenates, anything else is one
+element) — the operand itself, or the operand converted to the element's type —, or refuses with a diagnostic; (5) the
+side-effect test in front of it is sound (`Spec.MslDup.Sound`: accepted constructors are strict and without effect and ALL
+their expression-typed fields are tested) and everything else is accepted only for one element; (6) the `%=` arm is the only
+one of the operator table with the assignment form, it rewrites to `Assignment(a, Modulus(a, b))` or refuses with
+`ComplexRemainderAssignment`, and its tests — `is_plain_place` with `is_plain_index` on the target, `is_free_of_writes` on the
+right operand — are sound (`Spec.MslDup.SoundTabs`).  The test of seeded mutant C02-3 fails (5): `ArraySubscript` has
+expression fields `[0, 1]`, the test recursed into `[0]`. -/
 theorem dup_sites_guarded :
     copySites.all (fun s => (reviewOf s).isSome) = true ∧
-    copySites.all (fun s => reviewOf s != some .repeated || s == structCastSite) = true ∧
+    copySites.all (fun s => reviewOf s != some .repeated || s == structCastSite || s == structCastConvertSite ||
+      s == remAssignTargetSite) = true ∧
     repeatedGeneratorCalls = [] ∧ textBuildingInGenerateExpression = 0 ∧
-    structCastRepeatsInnerPerElement = true ∧ structCastRefusalIsDiagnostic = true ∧ memberCountAsModelled = true ∧
-    Sound structCastGuard = true := by
-  decide +kernel
+    structCastClausePerElement = true ∧ structCastRefusalIsDiagnostic = true ∧ memberTypesAsModelled = true ∧
+    Sound structCastGuard = true ∧
+    (∀ o, (∃ s e a b c, mslOpForm o = .floatAssign s e a b c) ↔ o = .RemainderAssignment) ∧
+    mslOpForm .RemainderAssignment =
+      .floatAssign ["Float16", "Float32", "Float64"] "ComplexRemainderAssignment" .Assignment .Modulus .RemainderAssignment ∧
+    SoundTabs [remAssignPlaceGuard, remAssignIndexGuard] = true ∧ SoundTabs [remAssignWritesGuard] = true := by
+  refine ⟨by decide +kernel, by decide +kernel, by decide +kernel, by decide +kernel, by decide +kernel, by decide +kernel,
+    by decide +kernel, by decide +kernel, ?_, rfl, by decide +kernel, by decide +kernel⟩
+  intro o
+  constructor
+  · rintro ⟨s, e, a, b, c, h⟩; cases o <;> simp [mslOpForm] at h ⊢
+  · rintro rfl; exact ⟨_, _, _, _, _, rfl⟩
 
-/-- the side-effect test never accepts a constructor that is not one of `ir::Expression`'s, and the shapes it matches
+/-- the side-effect tests never accept a constructor that is not one of `ir::Expression`'s, and the shapes they match
 have the constructor's number of fields -/
 theorem guard_rows_are_ir_constructors :
-    structCastGuard.all (fun r => irExpressionCtors.any (fun k => k.name == r.ctor && k.arity == r.arity)) = true := by
+    structCastGuard.all (fun r => irExpressionCtors.any (fun k => k.name == r.ctor && k.arity == r.arity)) = true ∧
+    (remAssignPlaceGuard ++ remAssignIndexGuard ++ remAssignWritesGuard).all
+      (fun r => irExpressionCtors.any (fun k => k.name == r.ctor && k.arity == r.arity)) = true := by
   decide +kernel
+
+theorem structCastGuard_sound : Sound structCastGuard = true := dup_sites_guarded.2.2.2.2.2.2.2.1
 
 section generic
 variable {Val Store : Type}
@@ -137,65 +174,99 @@ theorem repeatable_operand_is_pure_of_sound (I : Interp Val Store) {rows : List 
 theorem repeatable_operand_is_pure (I : Interp Val Store) (e : DExpr) (hw : wf e = true)
     (hg : testExpr structCastGuard e = true) (σ : Store) (v : Val) (σ' : Store) (he : eval I e σ = some (v, σ')) :
     σ' = σ ∧ eval I e σ' = some (v, σ') ∧ ∀ n, evalRepeat I e n σ = some (List.replicate n v, σ') :=
-  repeatable_operand_is_pure_of_sound I dup_sites_guarded.2.2.2.2.2.2.2 e hw hg σ v σ' he
+  repeatable_operand_is_pure_of_sound I structCastGuard_sound e hw hg σ v σ' he
 
-/-- **The struct cast keeps the meaning of its operand.**  Whenever the modelled arm emits `S { e, …, e }` (`n` copies)
-for an operand that evaluates to `v` with final store `σ'`, the `n` initialiser clauses evaluate, left to right, to `n`
-times `v` with the same final store `σ'` — through the side-effect test (any `n`, also `n = 0`: the operand is not
-evaluated at all and had no effect) or because `n = 1`. -/
-theorem struct_cast_meaning_kept (I : Interp Val Store) (ty : CTy) (e : DExpr) (hw : wf e = true) (n : Nat)
-    (hc : structCastNow ty e = .repeated n) (σ : Store) (v : Val) (σ' : Store) (he : eval I e σ = some (v, σ')) :
-    evalRepeat I e n σ = some (List.replicate n v, σ') := by
+/-- **The struct cast keeps the meaning of its operand.**  Whenever the modelled arm emits `S { c₁, …, cₙ }` for an operand
+that evaluates to `v` with final store `σ'`, the `n` clauses evaluate, left to right, to the ONE value `v` — converted to the
+element's type by the cast's own step where the clause converts (fix 5d2f434), as it is where the clause copies — with the
+same final store `σ'`, and are undefined exactly when one of the conversions is; through the side-effect test (any `n`, also
+`n = 0`: the operand is not evaluated at all and had no effect) or because `n = 1`. -/
+theorem struct_cast_meaning_kept (I : Interp Val Store) (ty : CTy) (inTy : Nat) (e : DExpr) (hw : wf e = true) (cs : List Clause)
+    (hc : structCastNow ty inTy e = .clauses cs) (σ : Store) (v : Val) (σ' : Store) (he : eval I e σ = some (v, σ')) :
+    evalClauses I e cs σ = (mapOptL (clauseVal I v σ') cs).map (fun vs => (vs, σ')) := by
   unfold structCastNow structCast at hc
-  cases hm : memberCount ty with
+  cases hm : memberTypes ty with
   | error m => rw [hm] at hc; simp at hc
-  | ok k =>
+  | ok ts =>
     rw [hm] at hc
     simp only at hc
     split at hc
     · rename_i hcond
-      have hk : k = n := by simpa using hc
-      subst hk
+      have hk : ts.map (clauseFor inTy (isLiteral e)) = cs := by simpa using hc
       rw [Bool.or_eq_true] at hcond
       cases hcond with
-      | inl hg => exact (repeatable_operand_is_pure I e hw hg σ v σ' he).2.2 k
+      | inl hg =>
+        have := (repeatable_operand_is_pure I e hw hg σ v σ' he).1
+        subst this
+        exact clauses_of_keeps_store I e σ' v he cs
       | inr h1 =>
         rw [Bool.and_eq_true] at h1
-        have : k = 1 := by simpa using h1.2
-        subst this
-        simp [evalRepeat, he]
+        have h1' : ts.length = 1 := by simpa using h1.2
+        match ts, h1' with
+        | [t], _ =>
+          subst hk
+          simp only [List.map, evalClauses, mapOptL]
+          rw [eval_clause I e _ σ v σ' he]
+          cases clauseVal I v σ' (clauseFor inTy (isLiteral e) t) <;> rfl
+    · simp at hc
+
+/-- which clauses copy and which convert: a clause is the operand itself exactly for an element of the operand's type, and
+for every element when the operand is a literal; there is one clause per element type, in order -/
+theorem struct_cast_clauses (ty : CTy) (inTy : Nat) (e : DExpr) (cs : List Clause) (hc : structCastNow ty inTy e = .clauses cs) :
+    ∃ ts, memberTypes ty = .ok ts ∧ cs = ts.map (fun t => if t = inTy ∨ isLiteral e = true then .copy else .convert t) := by
+  unfold structCastNow structCast at hc
+  cases hm : memberTypes ty with
+  | error m => rw [hm] at hc; simp at hc
+  | ok ts =>
+    rw [hm] at hc
+    simp only at hc
+    split at hc
+    · refine ⟨ts, rfl, ?_⟩
+      have hk : ts.map (clauseFor inTy (isLiteral e)) = cs := by simpa using hc
+      rw [← hk]
+      apply List.map_congr_left
+      intro t _
+      simp [clauseFor]
     · simp at hc
 
 /-- the arm never repeats an operand it would have to refuse: `unsupportedCast` exactly when the test rejects and the
 struct has another number of elements than one -/
-theorem struct_cast_refuses_iff (ty : CTy) (e : DExpr) (n : Nat) (hm : memberCount ty = .ok n) :
-    structCastNow ty e = .unsupportedCast ↔ (testExpr structCastGuard e = false ∧ n ≠ 1) := by
+theorem struct_cast_refuses_iff (ty : CTy) (inTy : Nat) (e : DExpr) (ts : List Nat) (hm : memberTypes ty = .ok ts) :
+    structCastNow ty inTy e = .unsupportedCast ↔ (testExpr structCastGuard e = false ∧ ts.length ≠ 1) := by
   have hflag : structCastAcceptsAnythingForOneElement = true := by decide
   unfold structCastNow structCast
   rw [hm, hflag]
-  cases hg : testExpr structCastGuard e <;> by_cases h1 : n = 1 <;> simp [h1]
+  cases hg : testExpr structCastGuard e <;> by_cases h1 : ts.length = 1 <;> simp [h1]
+
+/-- **The operands of a rewritten floating-point `%=` can be written twice / evaluated in the other order.**  For every
+sound chain of tables, every meaning of the effectful constructors `I`, every well-formed operand `e`: if the chain's test
+accepts `e` and `e` evaluates to `v` with store `σ'` then `σ' = σ`, and evaluating it again gives the same result. -/
+theorem tested_operand_is_pure_of_sound (I : Interp Val Store) {tabs : List (List PlaceRow)} (hs : SoundTabs tabs = true)
+    (e : DExpr) (hw : wf e = true) (hg : testD tabs e = true) (σ : Store) (v : Val) (σ' : Store)
+    (he : eval I e σ = some (v, σ')) : σ' = σ ∧ eval I e σ' = some (v, σ') := by
+  have h := testD_keeps_store I e tabs hs hw hg σ v σ' he
+  subst h
+  exact ⟨rfl, he⟩
+
+/-- … for the tests of the current source: whenever the modelled arm rewrites `a %= b` to `a = fmod(a, b)`, the target `a`
+evaluates without an effect (so naming it twice is harmless) and so does `b` (so it does not matter that the emitted form
+reads `a` before `b` is evaluated, the source after) -/
+theorem rem_assign_operands_are_pure (I : Interp Val Store) (a b : DExpr) (hwa : wf a = true) (hwb : wf b = true)
+    (hr : remAssignNow a b = .targetTwice) :
+    (∀ σ v σ', eval I a σ = some (v, σ') → σ' = σ ∧ eval I a σ' = some (v, σ')) ∧
+    (∀ σ v σ', eval I b σ = some (v, σ') → σ' = σ ∧ eval I b σ' = some (v, σ')) := by
+  unfold remAssignNow at hr
+  split at hr
+  · rename_i h
+    rw [Bool.and_eq_true] at h
+    exact ⟨fun σ v σ' he => tested_operand_is_pure_of_sound I dup_sites_guarded.2.2.2.2.2.2.2.2.2.2.1 a hwa h.1 σ v σ' he,
+      fun σ v σ' he => tested_operand_is_pure_of_sound I dup_sites_guarded.2.2.2.2.2.2.2.2.2.2.2 b hwb h.2 σ v σ' he⟩
+  · simp at hr
 
 end generic
 
 -- ---------------------------------------------------------------------------------------------- on C01's typed IR
 open RsslVerif.Model RsslVerif.Spec.Sem
-
-mutual
-/-- the typed scalar IR of C01 as a tree of `ir::Expression` constructors -/
-def toD : Ir.Expr → DExpr
-  | .lit _ => .node "Literal" (.payload 0 .nil)
-  | .var id => .node "Variable" (.payload id .nil)
-  | .global id => .node "Global" (.payload id .nil)
-  | .op _ args => .node "IntrinsicOp" (.payload 0 (.many (toDs args) .nil))
-  | .tern c t f => .node "TernaryConditional" (.one (toD c) (.one (toD t) (.one (toD f) .nil)))
-  | .seq es => .node "Sequence" (.many (toDs es) .nil)
-  | .cast _ e => .node "Cast" (.payload 0 (.one (toD e) .nil))
-  | .call f args => .node "Call" (.payload f (.payload 0 (.many (toDs args) .nil)))
-  | .intr _ _ _ args => .node "Call" (.payload 0 (.payload 0 (.many (toDs args) .nil)))
-def toDs : Ir.Exprs → DExprs
-  | .nil => .nil
-  | .cons e r => .cons (toD e) (toDs r)
-end
 
 mutual
 /-- the embedding lands in well-formed trees -/
@@ -294,9 +365,30 @@ value, same store — for every `Prim` -/
 theorem repeatable_operand_is_pure_ir (W : World) (e : Ir.Expr) (hg : testExpr structCastGuard (toD e) = true)
     (σ : Store) (v : Val) (σ' : Store) (he : Ir.eval W e σ = some (v, σ')) :
     σ' = σ ∧ Ir.eval W e σ' = some (v, σ') := by
-  have h := repeatable_operand_is_pure_ir_of_sound W dup_sites_guarded.2.2.2.2.2.2.2 e hg σ v σ' he
+  have h := repeatable_operand_is_pure_ir_of_sound W structCastGuard_sound e hg σ v σ' he
   subst h
   exact ⟨rfl, he⟩
+
+/-- an accepted operand of the typed IR is accepted as a well-formed constructor tree -/
+theorem tested_ir_is_pure (W : World) (I : Interp Val Store) {tabs : List (List PlaceRow)} (hs : SoundTabs tabs = true)
+    (e : Ir.Expr) (hg : testD tabs (toD e) = true) (σ : Store) (v : Val) (σ' : Store) (he : eval I (toD e) σ = some (v, σ')) :
+    σ' = σ := testD_keeps_store I (toD e) tabs hs (wf_toD e) hg σ v σ' he
+
+/-- **`rem_assign_operands_are_pure` on the typed IR of C01** (`Spec.Sem.Ir.eval`): when the modelled `%=` arm rewrites
+`a %= b` to `a = fmod(a, b)` on the scalar subset, the target is a local, a parameter or a global and the right operand is
+pure in the sense of `Ir.pureExpr`: for every world `W` — every interpretation `Prim`, every meaning of the callable
+functions — evaluating it leaves the store unchanged, so reading the target before or after it is the same
+(`Lemmas.GenMsl.sim_remAssignM` builds the meaning-preservation of the emitted form on exactly this). -/
+theorem rem_assign_operands_are_pure_ir (W : World) (a b : Ir.Expr) (hr : remAssignNow (toD a) (toD b) = .targetTwice) :
+    ((∃ id, a = .var id) ∨ (∃ id, a = .global id)) ∧
+    (∀ σ v σ', Ir.eval W b σ = some (v, σ') → σ' = σ) := by
+  unfold remAssignNow at hr
+  split at hr
+  · rename_i h
+    rw [Bool.and_eq_true] at h
+    exact ⟨Lemmas.GenMsl.plainPlace_cases h.1,
+      fun σ v σ' he => Lemmas.GenMsl.pure_eval W b σ v σ' (Lemmas.GenMsl.freeOfWrites_pure b h.2) he⟩
+  · simp at hr
 
 -- ---------------------------------------------------------------------------------------------- non-vacuity, witnesses
 /-- the hypotheses are satisfiable: a static, a literal and a parameter are accepted and well formed; an array element
@@ -309,16 +401,52 @@ example : testExpr structCastGuard (toD (.global 3)) = true ∧ wf (toD (.global
     testExpr structCastGuard (toD (.op .PostfixIncrement (.cons (.var 0) .nil))) = false := by
   decide
 
-/-- `struct S { int a; int b; int c[2]; }` counts four, `struct { I a; I b[2]; int c; }` with `I = { p; q }` seven, a struct
-of one vector one; `(S)x` is written four times, `(S)(i++)` is refused for four elements and written once for one -/
+/-- `struct S { int a; int b; int c[2]; }` (int = type 7) has four elements, `struct { I a; I b[2]; float c; }` with
+`I = { p; q }` seven; `(S)x` with `x : int` is four copies, with `x : float` (type 9) four conversions, `(S)1.5` four copies
+(a literal is written as it is); `struct { float a; int b; uint c[2]; }` from an `int`: convert, copy, convert, convert;
+`(S)(i++)` is refused for four elements and written once for one -/
 example :
-    memberCount (.struct [.leaf, .leaf, .arr .leaf (some 2)]) = .ok 4 ∧
-    memberCount (.struct [.struct [.leaf, .leaf], .arr (.struct [.leaf, .leaf]) (some 2), .leaf]) = .ok 7 ∧
-    structCastNow (.struct [.leaf, .leaf, .arr .leaf (some 2)]) (toD (.var 0)) = .repeated 4 ∧
-    structCastNow (.struct [.leaf, .leaf, .arr .leaf (some 2)]) (toD (.op .PostfixIncrement (.cons (.var 0) .nil))) = .unsupportedCast ∧
-    structCastNow (.struct [.leaf]) (toD (.op .PostfixIncrement (.cons (.var 0) .nil))) = .repeated 1 := by
-  refine ⟨by simp [memberCount, memberCountList], by simp [memberCount, memberCountList], ?_, ?_, ?_⟩ <;>
-    simp [structCastNow, structCast, memberCount, memberCountList] <;> decide
+    memberTypes (.struct [.leaf 7, .leaf 7, .arr (.leaf 7) (some 2)]) = .ok [7, 7, 7, 7] ∧
+    memberTypes (.struct [.struct [.leaf 7, .leaf 7], .arr (.struct [.leaf 7, .leaf 7]) (some 2), .leaf 9]) = .ok [7, 7, 7, 7, 7, 7, 9] ∧
+    structCastNow (.struct [.leaf 7, .leaf 7, .arr (.leaf 7) (some 2)]) 7 (toD (.var 0)) = .clauses [.copy, .copy, .copy, .copy] ∧
+    structCastNow (.struct [.leaf 7, .leaf 7, .arr (.leaf 7) (some 2)]) 9 (toD (.var 0)) =
+      .clauses [.convert 7, .convert 7, .convert 7, .convert 7] ∧
+    structCastNow (.struct [.leaf 7, .leaf 7, .arr (.leaf 7) (some 2)]) 9 (.node "Literal" (.payload 0 .nil)) =
+      .clauses [.copy, .copy, .copy, .copy] ∧
+    structCastNow (.struct [.leaf 9, .leaf 7, .arr (.leaf 8) (some 2)]) 7 (toD (.var 0)) =
+      .clauses [.convert 9, .copy, .convert 8, .convert 8] ∧
+    structCastNow (.struct [.leaf 7, .leaf 7, .arr (.leaf 7) (some 2)]) 7 (toD (.op .PostfixIncrement (.cons (.var 0) .nil))) = .unsupportedCast ∧
+    structCastNow (.struct [.leaf 7]) 7 (toD (.op .PostfixIncrement (.cons (.var 0) .nil))) = .clauses [.copy] := by
+  refine ⟨rfl, rfl, ?_, ?_, ?_, ?_, ?_, ?_⟩ <;> decide +kernel
+
+/-- the `%=` tests on examples: `arr[(j + 1) & 3]`, `s.m.xy`, a member variable are plain places, `arr[i++]`, `arr[f(i)]`,
+`arr[b ? 1 : 2]`, `(a, b)` are not; `x + y * 2`, `b ? x : arr[j]`, `float3(x, y, x).y` are free of writes, `x++`, `f(y)`,
+`(x = y)`, `(x, y)` are not; `v %= w` is rewritten, `v %= f(w)` and `arr[i++] %= w` are refused -/
+example :
+    plainPlaceD (.node "ArraySubscript" (.one (.node "Variable" (.payload 1 .nil))
+      (.one (.node "IntrinsicOp" (.payload 15 (.many (.cons (.node "IntrinsicOp" (.payload 8 (.many (.cons (.node "Variable" (.payload 2 .nil))
+        (.cons (.node "Literal" (.payload 0 .nil)) .nil)) .nil))) (.cons (.node "Literal" (.payload 0 .nil)) .nil)) .nil))) .nil))) = true ∧
+    plainPlaceD (.node "Swizzle" (.one (.node "StructMember" (.one (.node "Variable" (.payload 1 .nil)) (.payload 0 (.payload 0 .nil)))) (.payload 0 .nil))) = true ∧
+    plainPlaceD (.node "MemberVariable" (.payload 1 (.payload 0 .nil))) = true ∧
+    plainPlaceD (.node "ArraySubscript" (.one (.node "Variable" (.payload 1 .nil))
+      (.one (toD (.op .PostfixIncrement (.cons (.var 0) .nil))) .nil))) = false ∧
+    plainPlaceD (.node "ArraySubscript" (.one (.node "Variable" (.payload 1 .nil)) (.one (toD (.call 3 (.cons (.var 0) .nil))) .nil))) = false ∧
+    plainPlaceD (.node "ArraySubscript" (.one (.node "Variable" (.payload 1 .nil))
+      (.one (toD (.tern (.var 0) (.lit (.int32 1)) (.lit (.int32 2)))) .nil))) = false ∧
+    plainPlaceD (toD (.seq (.cons (.var 0) (.cons (.var 1) .nil)))) = false ∧
+    freeOfWritesD (toD (.op .Add (.cons (.var 0) (.cons (.op .Multiply (.cons (.var 1) (.cons (.lit (.int32 2)) .nil))) .nil)))) = true ∧
+    freeOfWritesD (toD (.tern (.var 2) (.var 0) (.var 1))) = true ∧
+    freeOfWritesD (.node "Swizzle" (.one (.node "Constructor" (.payload 0 (.many (.cons (.node "Variable" (.payload 0 .nil))
+      (.cons (.node "Variable" (.payload 1 .nil)) .nil)) .nil))) (.payload 0 .nil))) = true ∧
+    freeOfWritesD (toD (.op .PostfixIncrement (.cons (.var 0) .nil))) = false ∧
+    freeOfWritesD (toD (.call 3 (.cons (.var 0) .nil))) = false ∧
+    freeOfWritesD (toD (.op .Assignment (.cons (.var 0) (.cons (.var 1) .nil)))) = false ∧
+    freeOfWritesD (toD (.seq (.cons (.var 0) (.cons (.var 1) .nil)))) = false ∧
+    remAssignNow (toD (.var 0)) (toD (.var 1)) = .targetTwice ∧
+    remAssignNow (toD (.var 0)) (toD (.call 3 (.cons (.var 1) .nil))) = .refused ∧
+    remAssignNow (.node "ArraySubscript" (.one (.node "Variable" (.payload 1 .nil))
+      (.one (toD (.op .PostfixIncrement (.cons (.var 0) .nil))) .nil))) (toD (.var 1)) = .refused := by
+  decide +kernel
 
 /-- the side-effect test of seeded mutant C02-3 (`is_repeatable`: member, swizzle and subscript of a repeatable object —
 the INDEX of the subscript is not looked at) -/
@@ -332,6 +460,8 @@ def counterInterp : Interp Nat Nat where
     | "ArraySubscript", [_, i] => some i
     | "Variable", _ => some σ
     | _, _ => some 0
+  early := fun _ _ _ => none
+  choose := fun v => some (v != 0)
   other := fun _ _ σ => some (σ, σ + 1)
 
 /-- `arr[i++]` -/
